@@ -20,7 +20,7 @@ IMPL_MODULE = "props.c06_impl"
 MODEL_AFTER_IMPL = True
 HASHSEEDS = {"quick": [0, 1], "thorough": [0, 1, 2, 3]}
 CASE_TIMEOUT = 120
-RULE = ("(a) random reduced acyclic deterministic bottom-up automata over a typed ranked alphabet (1-2 base types, 2-4 "
+RULE = ("(a) [one case in three: the automaton object has a history - it was converted once while one rule pointed to another state and the rule was then re-targeted in place, rules[key] = state, before the observed conversions] random reduced acyclic deterministic bottom-up automata over a typed ranked alphabet (1-2 base types, 2-4 "
         "constants/variables, 1-3 function letters of arity 1-3, 3-9 states, depth 2-4, 1-4 final states), whose states are "
         "shaped like the real pipeline's: (type, int), (type, (int, int)), read_product pairs, left-nested pairs, minimise "
         "classes of 1-3 leaves, pairs of classes, classes of pairs, and the two/three-level nestings that repeated "
@@ -188,7 +188,13 @@ def gen_rand(rng, tier, n):
         if aut is None:
             continue
         progs = K.candidate_programs(aut, CAP[tier], random.Random(rng.getrandbits(32)))
-        cases.append({"kind": "rand/" + shape, "data": [aut, WIDTHS, progs]})
+        c = {"kind": "rand/" + shape, "data": [aut, WIDTHS, progs]}
+        if len(cases) % 3 == 2:
+            # the automaton object has a history: converted once while rule i pointed to another state,
+            # then re-targeted in place (see c06_impl.impl)
+            dsts = [r[2] for r in aut[0]]
+            c["inplace"] = [rng.randrange(len(aut[0])), rng.choice(dsts)]
+        cases.append(c)
     return cases
 
 
@@ -345,6 +351,13 @@ def describe(case, mo):
 
 
 def shrink(case):
+    for c in _shrink0(case):
+        if case.get("inplace") is not None and c["kind"].startswith("rand"):
+            c = dict(c, inplace=case["inplace"])
+        yield c
+
+
+def _shrink0(case):
     k = case["kind"]
     if k.startswith("sharp"):
         d = case["data"]
